@@ -112,6 +112,9 @@ func runC11(c *runCtx) {
 		"Plain ASCII text.\n", "café au lait — naïve façade", "日本語のテキストです。", "emoji 😀 here 👍", "Ünïcödé ßtraße", "Wait\x85", "caf\xe9", "\x93quoted\x94 text", "na\xefve caf\xe9", "\x85",
 		"caf\xc3\xa9", "x\xf0\x9f\x98\x80", "a\xed\xa0\x80b", "a\xc0\xafb", "\xef\xbb\xbfBOM text", "\xff\xfeh\x00i\x00", "\xfe\xff\x00h", "\x00\x00\xfe\xffx", "\xff\xfe\x00\x00x\x00\x00\x00",
 		"tab\tsep\x1bescape\x7fdel", "bell\x07 backspace\x08 formfeed\x0c",
+		// undeclared text that merely talks about declarations: nothing in it is a declaration of its own encoding
+		"notes on html: write <meta charset=\"windows-1252\"> caf\xc3\xa9 in the head", "latin text \x85 says <meta charset=\"iso-8859-1\"> here", "ascii only <meta charset=koi8-r> end",
+		"x <?xml version=\"1.0\" encoding=\"koi8-r\"?> caf\xe9", "see <meta http-equiv=\"Content-Type\" content=\"text/html; charset=utf-16\"> d\xe9j\xe0 vu",
 		"caf\xef\xbf\xbd au lait (a real U+FFFD)\n", "price: 10 \xe2\x82\xac \xef\xbf\xbd\xef\xbf\xbd ok", "\xef\xbf\xbd", "\xef\xbf\xbe noncharacter \xf4\x8f\xbf\xbf",
 	}
 	// long texts whose charset-deciding bytes lie far behind the default limit, examined under larger limits
